@@ -947,7 +947,11 @@ func transformOrigin(tokens []Token, _ string) pr.CssProperty {
 		// Ignore third parameter as 3D transforms are ignored.
 		tokens = tokens[:2]
 	}
-	return parse2dPosition(tokens)
+	out := parse2dPosition(tokens)
+	if out.IsNone() {
+		return nil
+	}
+	return out
 }
 
 // @validator()
